@@ -2,7 +2,7 @@ from dataclasses import dataclass
 
 from mypy.nodes import CallExpr, ListExpr, MemberExpr, NameExpr, StrExpr
 
-from refurb.checks.common import stringify
+from refurb.checks.common import stringify, stringify_operand
 from refurb.checks.string.use_fstring_fmt import CONVERSIONS as FURB_119_FUNCS
 from refurb.error import Error
 from refurb.visitor import TraverserVisitor
@@ -74,8 +74,9 @@ def check(node: CallExpr, errors: list[Error]) -> None:
                     return
 
             x = stringify(arg)
+            field = stringify_operand(arg, "{}")
 
-            msg = f'Replace `f"{{{x}}}"` with `str({x})`'
+            msg = f'Replace `f"{{{field}}}"` with `str({x})`'
 
             errors.append(ErrorInfo.from_node(node, msg))
 
